@@ -44,16 +44,18 @@ theorem lexLoop_step (c : Char) (cs rest : Str) (st st' : LexSt α) (hc : c ≠ 
   simp only [Bool.false_eq_true, if_false, Nat.add_one_ne_zero, Nat.add_sub_cancel]
   exact lexLoop_skip I t lm cs rest st'
 
-theorem lexLoop_popen (x : Str) (res : List (Tok α)) (owed : List Int) (d : Int) :
-    lexLoop I t lm ('(' :: x) 0 ⟨res, owed, d⟩ = lexLoop I t lm x 0 ⟨res ++ [.popen], owed, d + 1⟩ := by
-  have h := lexLoop_step I t lm '(' [] x ⟨res, owed, d⟩ ⟨res ++ [.popen], owed, d + 1⟩ (by decide)
+theorem lexLoop_popen (x : Str) (res : List (Tok α)) (owed : List Int) (d : Int) (dp : Bool) :
+    lexLoop I t lm ('(' :: x) 0 ⟨res, owed, d, dp⟩ = lexLoop I t lm x 0 ⟨res ++ [.popen], owed, d + 1, dp⟩ := by
+  have h := lexLoop_step I t lm '(' [] x ⟨res, owed, d, dp⟩ ⟨res ++ [.popen], owed, d + 1, dp⟩ (by decide)
     (by simp [lexStep])
   simpa using h
 
-theorem lexLoop_pclose (x : Str) (res : List (Tok α)) (d : Int) :
-    lexLoop I t lm (')' :: x) 0 ⟨res, [], d⟩ = lexLoop I t lm x 0 ⟨res ++ [.pclose], [], d - 1⟩ := by
-  have h := lexLoop_step I t lm ')' [] x ⟨res, [], d⟩ ⟨res ++ [.pclose], [], d - 1⟩ (by decide)
-    (by simp [lexStep])
+/-- a `)` at positive depth: the "unmatched closing parenthesis" flag is unchanged -/
+theorem lexLoop_pclose (x : Str) (res : List (Tok α)) (d : Int) (dp : Bool) (hd : 0 < d) :
+    lexLoop I t lm (')' :: x) 0 ⟨res, [], d, dp⟩ = lexLoop I t lm x 0 ⟨res ++ [.pclose], [], d - 1, dp⟩ := by
+  have hd' : ¬ (d - 1 < 0) := by omega
+  have h := lexLoop_step I t lm ')' [] x ⟨res, [], d, dp⟩ ⟨res ++ [.pclose], [], d - 1, dp⟩ (by decide)
+    (by simp [lexStep, hd'])
   simpa using h
 
 /-! ### the plain branch of `lexStep` -/
